@@ -83,6 +83,10 @@ Inductive cop :=
 | CSampEn (op lik prior : cop) (zero : bool) (prior_times : vec -> vec) (solve : vec -> vec)
                                                             (* SamplingEnabler: _op, _likelihood, _prior, _start_from_zero;
                                                                prior_times = self._prior(.), solve = converged CG for _op x = b *)
+| CEmb (o : cop) (m : nat) (emb : vec -> vec)               (* a summand of a SumOperator that lives on a sub-MultiDomain
+                                                               (m pixels): `res.unite(tmp)` = MultiField.flexible_addsub
+                                                               puts its sample at the positions of its keys in the union
+                                                               domain, zero elsewhere (emb) *)
 | COther.                                                   (* any other endomorphic operator *)
 
 Definition bind {A B} (r : res A) (f : A -> res B) : res B :=
@@ -186,6 +190,11 @@ Fixpoint draw (o : cop) (n : nat) (inv : bool) (k : nat) (xi : noise) {struct o}
                     Ok (cmap solve (cadd (cmap prior_times s) nj), k2)))
       | r => r
       end
+  | CEmb a m emb =>
+      (* tmp = op.draw_sample(from_inverse); res = tmp if res is None else res.unite(tmp)
+         "This MultiField's domain is the union of the input fields' domains. The values are the sum of
+          the fields in self and other. If a field is not present, it is assumed to have an uniform value of zero." *)
+      bind (draw a m inv k xi) (fun '(s, k') => Ok (cmap emb s, k'))
   | COther => Refuse RNotImplemented      (* EndomorphicOperator.draw_sample: raise NotImplementedError *)
   end.
 
